@@ -21,6 +21,7 @@ class ScheduledObserver(Observer[_T_in]):
         self.lock = threading.RLock()
         self.is_acquired = False
         self.has_faulted = False
+        self._epoch = 0
         self.queue: list[typing.Action] = []
         self.disposable = SerialDisposable()
 
@@ -47,14 +48,24 @@ class ScheduledObserver(Observer[_T_in]):
 
     def ensure_active(self) -> None:
         is_owner = False
+        epoch = 0
 
         with self.lock:
             if not self.has_faulted and self.queue:
                 is_owner = not self.is_acquired
                 self.is_acquired = True
+                if is_owner:
+                    self._epoch += 1
+                    epoch = self._epoch
 
         if is_owner:
-            self.disposable.disposable = self.scheduler.schedule(self.run)
+            disposable = self.scheduler.schedule(self.run)
+            with self.lock:
+                # Another thread may have become owner and scheduled a newer drain
+                # in the meantime; assigning this older one to the serial disposable
+                # would dispose (cancel) the newer one and strand the queue.
+                if epoch == self._epoch:
+                    self.disposable.disposable = disposable
 
     def run(self, scheduler: abc.SchedulerBase, state: Any) -> None:
         parent = self
